@@ -201,6 +201,7 @@ package compactindexsized
 //@   ensures result1 == nil ==> result0 != nil && fresh(result0)
 //@   ensures result1 == nil ==> 1 <= result0.Header.ValueSize && result0.Header.ValueSize <= 252 && result0.Header.ValueSize == uint64(valueSizeBytes)
 //@   ensures result1 == nil && numItems <= 40000000000000 ==> result0.Header.NumBuckets >= 1 && len(result0.buckets) == int(result0.Header.NumBuckets)
+//@   loop 0 invariant forall k int :: 0 <= k && k < len(closers) ==> closers[k] != nil
 
 //@ func (*tempBucket) writeTuple
 //@   mode int
